@@ -435,6 +435,7 @@ impl TCheck for C13 {
             record_events: true,
             hard_fault: false,
             one_cpu: false,
+            post: None,
         }
     }
     fn history_oracle(&self, events: &[crate::exec::Event], _report: &BodyReport) -> Vec<String> {
